@@ -8,7 +8,10 @@ model reader `psd.dec` is compared with PSD.read (payloads kept raw, canonicalis
 key, raw payload slice, and the final offset) and the model writer `psd.enc` with PSD.write (bytes, returned count,
 object state after the write).
 Search: the property itself on the real code, typed payloads included: w1 = write(read(b)) succeeds, read(w1) equals
-the in-memory structure after the save, write(read(w1)) == w1.
+the in-memory structure after the save, write(read(w1)) == w1.  Inputs: skeleton-level mutants of a sample of fixtures
+and payload-level mutants of ALL fixtures (same-length key substitutions by terminology terms, boundary values on
+every scalar leaf the parser read, length-changing splices with the enclosing lengths kept valid, structure-level leaf
+mutation written by the real writer); only accepted files are judged.
 """
 from __future__ import annotations
 
@@ -99,7 +102,13 @@ def work(task):
     signal.alarm(60)
     try:
         rec = task.get("rec")
-        if task.get("leaf_seed") is not None:
+        if task.get("leaf_path") is not None:
+            lm = lc.leaf_set(fx_bytes(task["fixture"]), task["leaf_path"], task["leaf_how"])
+            if lm is None:
+                return {"id": task["id"], "res": ("no-mutant",), "rec": rec}
+            data = lm[0]
+            rec = dict(rec, new=lm[1])
+        elif task.get("leaf_seed") is not None:
             lm = lc.leaf_mutant(random.Random(task["leaf_seed"]), fx_bytes(task["fixture"]))
             if lm is None:
                 return {"id": task["id"], "res": ("no-mutant",), "rec": None}
@@ -109,7 +118,7 @@ def work(task):
             data = build(task)
         res = lc.resave_oracle(data)
         out = {"id": task["id"], "res": res, "rec": rec, "len": len(data)}
-        if task.get("leaf_seed") is not None and res[0] == "fail":
+        if (task.get("leaf_seed") is not None or task.get("leaf_path") is not None) and res[0] == "fail":
             out["file"] = hx(data)
         if task.get("corr") and len(data) <= CORR_MAX_BYTES:
             out["corr"] = corr_record(data)
@@ -128,6 +137,38 @@ def map_fixture(name):
     res, sm = lc.trace_parse(fx_bytes(name))
     sm.data = None          # the parent has the bytes
     return name, res[0], sm
+
+
+def _thin(sites, cap):
+    """at most `cap` sites per feature: first, last, then evenly spread"""
+    by = {}
+    for s_ in sites:
+        by.setdefault(s_["feat"], []).append(s_)
+    out = []
+    for ft, lst in by.items():
+        if len(lst) > cap:
+            idx = sorted({0, len(lst) - 1} | {(k * (len(lst) - 1)) // max(1, cap - 1) for k in range(cap)})[:cap]
+            lst = [lst[k] for k in idx]
+        out += lst
+    return out
+
+
+def index_fixture(arg):
+    """payload-level sites of one fixture (byte sites from the structural map, leaf sites from the parsed object)"""
+    name, want_map, cap = arg
+    import logging
+    logging.disable(logging.CRITICAL)
+    warnings.simplefilter("ignore")
+    try:
+        data = fx_bytes(name)
+        res, sm = lc.trace_parse(data)
+        sites = _thin(lc.payload_sites(sm), cap)
+        n_all = len(sm.keys), len(sm.scalars), len(sm.containers), len(sm.opaque)
+        leafs = _thin(lc.leaf_sites(data), cap) if res[0] == "ok" else []
+        sm.data = None
+        return name, res[0], (sm if want_map else None), sites, leafs, n_all
+    except Exception as e:  # noqa  (the tracer met something it does not understand: the fixture is skipped, with a note)
+        return name, "index-error:" + repr(e)[:120], None, [], [], (0, 0, 0, 0)
 
 
 # ---------------------------------------------------------------------------------------------
@@ -153,6 +194,8 @@ def lean_b35():
 
 def shrink(task, sig):
     """fewest mutated bytes (for in-place edits) that still give the same signature"""
+    if task.get("file") is not None and task.get("fixture") and len(unhx(task["file"])) == len(fx_bytes(task["fixture"])):
+        task = {k: v for k, v in task.items() if k != "file"} | {"edits": [["put", 0, task["file"]]]}
     if task.get("file") is not None or any(e[0] != "put" for e in task.get("edits") or []):
         return task
     base = fx_bytes(task["fixture"])
@@ -169,8 +212,34 @@ def shrink(task, sig):
             b[i] = mut[i]
         r = lc.resave_oracle(bytes(b))
         return r[0] == "fail" and lc.classify(r) == sig
-    keep = core.ddmin(offs, test)
-    return dict(task, edits=[["put", i, bytes([mut[i]]).hex()] for i in keep])
+    keep = core.ddmin(offs, test) if len(offs) <= 4096 else offs
+    return dict(task, edits=_runs(keep, mut))
+
+
+def _edit_weight(t):
+    """how many bytes a recipe touches (a whole file counts as its length)"""
+    if t.get("edits") is None:
+        return len(t.get("file") or "") // 2
+    w = 0
+    for e in t["edits"]:
+        if e[0] == "put":
+            w += len(e[2]) // 2
+        elif e[0] == "rep":
+            w += (e[2] - e[1]) + (len(e[3]) // 2 if isinstance(e[3], str) else e[3][-1] - e[3][-2])
+        else:
+            w += 1
+    return w
+
+
+def _runs(offs, mut):
+    """consecutive offsets -> one put edit per run"""
+    out = []
+    for i in sorted(offs):
+        if out and out[-1][1] + len(out[-1][2]) // 2 == i:
+            out[-1][2] += bytes([mut[i]]).hex()
+        else:
+            out.append(["put", i, bytes([mut[i]]).hex()])
+    return out
 
 
 def run(ctx: core.Run):
@@ -257,6 +326,85 @@ def run(ctx: core.Run):
             for _ in range(n // 10):
                 add(kind="leaf", corr=False, fixture=name, leaf_seed=rng.getrandbits(48),
                     rec={"op": "leaf", "label": "?", "fixture": name})
+    # ------------------------------------------------------------------ payload-level mutation of accepted files
+    # Sites come from ALL fixtures up to PAYLOAD_MAX bytes (the structural map records payload reads as well): for every
+    # reader statement that consumed bytes in some fixture, a few sites; deterministic boundary variants first.
+    payload_max = 300_000 if quick else 1_500_000
+    k_site, k_leaf, cap = (3, 2, 4) if quick else (8, 6, 10)
+    pnames = [rel(f) for f in allfx if f.stat().st_size <= payload_max]
+    psize = {rel(f): f.stat().st_size for f in allfx}
+    per_sites, per_leafs = {}, {}
+    n_idx = [0, 0, 0, 0]
+    for name, status, _sm, sites, leafs, n_all in pool.map(index_fixture, [(n, False, cap) for n in pnames], chunksize=2):
+        if status != "ok":
+            ctx.hist("payload_index", status[:60])
+            if status.startswith("index-error"):
+                ctx.notes.append("payload index of %s failed: %s" % (name, status))
+            continue
+        per_sites[name], per_leafs[name] = sites, leafs
+        n_idx = [a + b for a, b in zip(n_idx, n_all)]
+    terms = lc.terminology_terms()
+    if not terms:
+        ctx.notes.append("psd_tools.terminology enums not found: descriptor keys are substituted by non-terms only")
+    chosen_sites = [x for x in lc.choose_sites(per_sites, k_site, pnames) if x[1]["k"] != "opaque"]
+    n_det = 0
+    for name, site in chosen_sites:
+        base = fx_bytes(name)
+        if site["k"] == "key":
+            vs = lc.key_variants(site, base, terms, rng, 6 if quick else 16)
+        elif site["k"] == "num":
+            vs = lc.scalar_variants(site, base)
+        else:
+            vs = lc.block_variants(site)
+        for how, edits in vs:
+            n_det += 1
+            add(kind="payload", corr=False, fixture=name, edits=edits,
+                rec={"op": "payload-" + site["k"], "label": site["label"], "how": how, "off": site["off"],
+                     "site": site["feat"][1], "fixture": name, "edits": edits})
+    # random payload sites / variants (all from ctx.rng)
+    flat = [(n, s_) for n in pnames for s_ in per_sites.get(n, ()) if s_["k"] != "opaque"]
+    n_rand_payload = 1500 if quick else 12000
+    for name, site in (rng.sample(flat, min(len(flat), n_rand_payload)) if flat else []):
+        base = fx_bytes(name)
+        if site["k"] == "key":
+            pool_t = terms.get(site["size"], [])
+            raw = rng.choice(pool_t) if pool_t and rng.random() < 0.8 else bytes(rng.choice(b"abcXYZ 09") for _ in range(site["size"]))
+            if raw == base[site["off"]:site["off"] + site["size"]]:
+                continue
+            how, edits = "rnd:" + raw.decode("latin1"), [["put", site["off"], raw.hex()]]
+        elif site["k"] == "num":
+            m_ = 256 ** site["size"]
+            v_ = int.from_bytes(base[site["off"]:site["off"] + site["size"]], "big")
+            nv = rng.choice([(v_ + 1) % m_, (v_ - 1) % m_, (v_ * 2) % m_, v_ // 2, rng.randrange(m_), v_ ^ (1 << rng.randrange(8 * site["size"]))])
+            if nv == v_:
+                continue
+            how, edits = "rnd", [["put", site["off"], nv.to_bytes(site["size"], "big").hex()]]
+        else:
+            vs = lc.block_variants(site, ks=(rng.choice([1, 2, 3, 4, 5, 7, 8]),))
+            if not vs:
+                continue
+            how, edits = rng.choice(vs)
+        add(kind="payload", corr=False, fixture=name, edits=edits,
+            rec={"op": "payload-" + site["k"], "label": site["label"], "how": how, "off": site["off"],
+                 "site": site["feat"][1], "fixture": name, "edits": edits})
+    # structure level: parse, set one leaf of a payload object to a boundary value / other enum member / shorter or
+    # longer bytes, write with the real writer, and take THAT output as the input file (kept when the reader accepts it)
+    chosen_leafs = lc.choose_sites({n: [dict(l, k="leaf", off=i) for i, l in enumerate(v)] for n, v in per_leafs.items()},
+                                   k_leaf, pnames)
+    n_leafset = 0
+    for name, ls in chosen_leafs:
+        for how in lc.LEAF_HOWS.get(ls["type"], ()):
+            n_leafset += 1
+            add(kind="leafset", corr=False, fixture=name, leaf_path=ls["path"], leaf_how=how,
+                rec={"op": "leafset", "label": ls["cls"], "field": ls["field"], "how": how, "fixture": name})
+    ctx.extra["payload_level"] = {
+        "fixtures_indexed": len(per_sites), "max_bytes": payload_max,
+        "sites_in_maps": dict(zip(("keys", "scalar_leaves", "length_blocks", "opaque_payloads"), n_idx)),
+        "reader_statements_with_sites": len({s_["feat"] for v in per_sites.values() for s_ in v}),
+        "sites_chosen": len(chosen_sites), "sites_per_statement": k_site, "deterministic_mutants": n_det,
+        "leaf_features": len({l["feat"] for v in per_leafs.values() for l in v}), "leaf_sites_chosen": len(chosen_leafs),
+        "leafset_tasks": n_leafset, "terminology_terms_by_length": {str(k): len(v) for k, v in sorted(terms.items())},
+    }
     t_gen = time.time() - t0
 
     # ------------------------------------------------------------------ run the oracle (and the raw parse) in the pool
@@ -335,7 +483,8 @@ def run(ctx: core.Run):
             continue
         accepted = res[0] in ("ok", "fail")
         ctx.count((t.get("fixture"), json.dumps(t.get("edits"), sort_keys=True) if t.get("edits") is not None
-                   else (t.get("file") or str(t.get("leaf_seed")))[:64]), nontrivial=accepted)
+                   else (t.get("file") or str(t.get("leaf_seed")) + json.dumps(t.get("leaf_path")) + str(t.get("leaf_how")))[:200]),
+                  nontrivial=accepted)
         if res[0] == "rejected":
             ctx.hist("outcome", "rejected:" + res[1])
             if t["kind"] in ("corpus", "fixture"):
@@ -344,6 +493,8 @@ def run(ctx: core.Run):
             continue
         ctx.hist("accepted_by_op", op)
         ctx.hist("accepted_by_label", rec.get("label", "?") if rec.get("label") in lc.SKELETON else "payload classes")
+        if op.startswith("payload-") or op == "leafset":
+            ctx.hist("payload_accepted_by_class", rec.get("label", "?"))
         info = res[-1]
         if t["kind"] == "fixture":
             ctx.hist("fixture_resave", "identical" if info.get("identical_to_input") else "differs-from-original")
@@ -364,14 +515,15 @@ def run(ctx: core.Run):
             tt["file"] = r["file"]
         fails[sig].append((tt, res))
     for sig, lst in sorted(fails.items()):
-        lst.sort(key=lambda x: (x[1][-1].get("len", 0), json.dumps(x[0].get("edits"))))
+        lst.sort(key=lambda x: (_edit_weight(x[0]), x[1][-1].get("len", 0), json.dumps(x[0].get("edits"))))
         t, res = lst[0]
         try:
             t = shrink(t, sig)
         except Exception:  # noqa
             pass
         inp = {"file": t["file"]} if t.get("file") else {"fixture": t["fixture"], "edits": t["edits"]}
-        inp["note"] = t.get("note") or (t.get("rec") or {}).get("op")
+        rec_ = t.get("rec") or {}
+        inp["note"] = t.get("note") or " ".join(str(rec_[k]) for k in ("op", "label", "field", "site", "how", "new") if rec_.get(k))
         ctx.fail(sig, "an accepted file is not re-saved stably (%s)" % res[1], inp,
                  {"stage": res[1], "detail": res[2], "info": res[3], "same_signature": len(lst)},
                  "write(read(b)) succeeds, read(w1) == read(b) (after the save), write(read(w1)) == w1")
@@ -408,7 +560,20 @@ def run(ctx: core.Run):
         "boundaries (+-2), splices of length blocks between files, duplication/deletion of blocks, exhaustively +-1/+-2/x2/max "
         "on every 2/4/8-byte numeric field of a skeleton class and a truncation at every block boundary (small fixtures), and structure-level "
         "leaf mutations (parse, set one scalar leaf to an extreme, write). 70 %% of the in-place mutations hit skeleton "
-        "classes, 30 %% payload classes." % (ctx.extra["structural_map"]["fields"], len(maps)))
+        "classes, 30 %% payload classes. PAYLOAD LEVEL (all fixtures up to %d bytes are mapped; payload reads are in the "
+        "map with the reader statement - class.function:line and its caller - that consumed them): for every reader "
+        "statement seen in some fixture, %d sites (smallest files first), each under deterministic boundary variants: "
+        "(a) a key in the `length, bytes[length or 4]` idiom is substituted by every terminology term of the same length "
+        "(a sample of the 4-byte ones) and by non-terms; a scalar leaf (every read_fmt item, floats included) is "
+        "overwritten with 0, 1, all-ones, sign bit, signed max (1.0, inf, -1.5 for floats); (c) a length block is "
+        "shrunk / grown by 1-4 bytes (an opaque one also emptied) with the enclosing lengths kept valid by filler at the "
+        "end of the enclosing block or by fixing up every enclosing length field (in-place containers are recognised by "
+        "their seek to end_pos); (b) structure level: for every (class, field) of the parsed objects, %d leaves set to "
+        "boundary values / other enum members / shorter and longer bytes and strings, written with the real writer, the "
+        "OUTPUT taken as the input file. Then random sites and values from the run's rng. Only accepted files count. "
+        "Failing inputs are shrunk to the fewest mutated bytes (ddmin over the changed offsets) and, per signature, the "
+        "recipe touching the fewest bytes is reported."
+        % (ctx.extra["structural_map"]["fields"], len(maps), payload_max, k_site, k_leaf))
     ctx.model_coverage = {
         "modelled_and_proved": sorted(lc.SKELETON),
         "opaque (searched on the real code only)": "every tagged-block / image-resource payload class",
